@@ -116,7 +116,7 @@ def run(run):
                        "redirect_to holds the canonical stored title of the target"]
     run.prove()
     cases = list(exhaustive(2 if run.tier == "quick" else 3))
-    nrand = 600 if run.tier == "quick" else 6000
+    nrand = 1000 if run.tier == "quick" else 6000
     for _ in range(nrand):
         cases.append(gen_case(run.rng, run.rng.randint(2, 8)))
     res = lib.run_impl("c17", cases)
